@@ -446,6 +446,32 @@ func init() {
 	} {
 		nested(l, "QSET_NUMREC", "DR")
 	}
+	// predicates that RAISE on some elements: whether the quantifier / CHOOSE fails or answers depends on which elements
+	// are reached before the answer is known; TLC visits the elements in the order of values.  The failing element
+	// (0 for 10 \div x, an index outside 1..3 for s[x]) is first / in the middle / last in value order.
+	dom["QSET_DIV"] = []string{"{0}", "{0, 1}", "{(-1), 0}", "{(-1), 0, 1}", "{(-2), (-1), 0}", "{0, 1, 2}", "{1, 2}", "{(-1), 1}", "{0, 10}", "{(-10), 0}"}
+	dom["QSET_IDX"] = []string{"{1, 2, 3, 4}", "{2, 3, 4}", "{0, 2}", "{2, 4}", "{3, 4}", "{4, 5}", "{0, 1}", "{1, 3}", "{0, 2, 4}"}
+	hundred := tla.MakeNumber(100)
+	div10 := func(x tla.Value) tla.Value { return tla.ModuleDivSymbol(ten, x) }
+	for _, l := range []lam{
+		{`10 \div x > 100`, func(x []tla.Value) tla.Value { return tla.ModuleGreaterThanSymbol(div10(x[0]), hundred) }},
+		{`10 \div x < 0`, func(x []tla.Value) tla.Value { return tla.ModuleLessThanSymbol(div10(x[0]), zero) }},
+		{`10 \div x = 10`, func(x []tla.Value) tla.Value { return tla.ModuleEqualsSymbol(div10(x[0]), ten) }},
+		{`10 \div x > 0`, func(x []tla.Value) tla.Value { return tla.ModuleGreaterThanSymbol(div10(x[0]), zero) }},
+	} {
+		nested(l, "QSET_DIV", "V")
+	}
+	seqAXB := tla.MakeTuple(tla.MakeString("a"), tla.MakeString("x"), tla.MakeString("b"))
+	for _, l := range []lam{
+		{`<<"a", "x", "b">>[x] = "x"`, func(x []tla.Value) tla.Value { return tla.ModuleEqualsSymbol(seqAXB.ApplyFunction(x[0]), tla.MakeString("x")) }},
+		{`<<"a", "x", "b">>[x] # "x"`, func(x []tla.Value) tla.Value { return tla.ModuleNotEqualsSymbol(seqAXB.ApplyFunction(x[0]), tla.MakeString("x")) }},
+	} {
+		nested(l, "QSET_IDX", "I")
+	}
+	// Assert looks at its message only when the condition is FALSE, and the message need not be a string
+	dom["ASSERT_MSG"] = []string{`"m"`, `<<"x must be positive", 1>>`, "1", "{}", "[a |-> 1]", "TRUE"}
+	add(&opDef{Name: "Assert(c, m)", Key: "Assert", Tmpl: "Assert(%s, %s)", Sigs: [][]string{{"BOOL", "ASSERT_MSG"}}, Need: []string{"bool", "any"},
+		Go: func(a []tla.Value) tla.Value { return tla.ModuleAssert(a[0], a[1]) }})
 	le := func(x []tla.Value) bool { return tla.ModuleLessThanOrEqualSymbol(x[0], x[1]).AsBool() }
 	add(&opDef{Name: `\A x \in S, y \in T : x <= y`, Key: `\A`, Tmpl: `\A x \in %s, y \in %s : x <= y`, Sigs: [][]string{{"SET_INT", "SET_INT"}}, Need: []string{"set", "set"},
 		Go: func(a []tla.Value) tla.Value { return tla.QuantifiedUniversal([]tla.Value{a[0], a[1]}, le) }})
